@@ -194,6 +194,9 @@ def cases(rng, tier):
     for _ in range(60 if tier == 'quick' else 2000):
         lines, stats = gen_release_seq(rng)
         out.append({'lines': lines, 'stats': stats, 'desc': ' ; '.join(l for l in lines if not l.startswith(('t flags', 't modes', 't grad')))[:900]})
+    for _ in range(3 if tier == 'quick' else 16):
+        lines, stats = fresh_seq(rng)
+        out.append({'lines': lines, 'stats': stats, 'fresh': True, 'desc': 'fresh interpreter: ' + ' ; '.join(l for l in lines if not l.startswith(('t flags', 't modes')))[:900]})
     if tier == 'thorough':
         # EXHAUSTIVE sub-family: three pre-constructed context objects (no_grad, retain_grads, no_grad); every word of length <= 6
         # over {enter c0, enter c1, enter c2, exit top, exit top by exception, op}; an op and the modes are observed after each
@@ -229,8 +232,24 @@ def cases(rng, tier):
     return out
 
 
+def _io(c):
+    return tprog.run_program_fresh(c['lines'], 'props.c07', 'Exec') if c.get('fresh') else tprog.run_program(c['lines'], Exec)
+
+
 def impl(c):
-    return tprog.run_program(c['lines'], Exec)
+    return _io(c)
+
+
+def fresh_seq(rng):
+    """the first statements of a fresh interpreter: contexts are constructed and entered BEFORE the first tensor exists"""
+    k0, k1 = rng.pick(['ng', 'rg']), rng.pick(['ng', 'rg'])
+    lines = [f't ctx new {k0}', f't ctx new {k1}', 't ctx enter 0', 't modes']
+    nested = rng.chance(.5)
+    if nested: lines += ['t ctx enter 1', 't modes']
+    lines += [gen_dag.leaf_line((2,), [1.0, 3.0], True), 't modes', 't flags 0', gen_dag.leaf_line((2,), [2.0, 1.0], False), 't op mul 0,1', 't flags 2', 't modes']
+    if nested: lines += [f't ctx {rng.pick(["exit", "exitexc"])} 1', 't modes', 't op add 0,1', 't flags 3']
+    lines += [f't ctx {rng.pick(["exit", "exitexc"])} 0', 't modes', 't op mul 0,0', f't flags {4 if nested else 3}']
+    return lines, {'maxdepth': 2 if nested else 1, 'pre': True, 'op_in_ng': 'ng' in (k0, k1)}
 
 
 def compare(c, mo, io):
@@ -254,7 +273,7 @@ def distribution(cases):
 
 # ---- oracle: the property's predicates evaluated on the observed answers ------------------------
 def oracle(c):
-    io = tprog.run_program(c['lines'], Exec)
+    io = _io(c)
     stack = []                       # (ctx id, kind, mode value at enter)
     grad, retain = True, False
     flags = {}
@@ -264,7 +283,7 @@ def oracle(c):
     for li, (l, o) in enumerate(zip(c['lines'], io)):
         t = l.split(' ')
         def fail(cls, what):
-            return {'key': {'cls': cls}, 'case': {'lines': c['lines'][:li + 1]}, 'what': what}
+            return {'key': {'cls': cls}, 'case': {'lines': c['lines'][:li + 1], 'fresh': bool(c.get('fresh'))}, 'what': what}
         if t[1] == 'ctx' and t[2] == 'enter':
             kind = None
             # kind is known from the creation line
